@@ -161,7 +161,8 @@ class Model:
             return False
         # ---------------------------------------------------------------- field elements on streams
         if name == 'read_be' and trait == 'ff::PrimeFieldRepr' and len(args) == 2:
-            k = sum(1 for e in pth.events if e[0] == 'repr-read')
+            k = fr.store.get('N_READS', Int(0)).v
+            fr.store['N_READS'] = Int(k + 1)
             src = referent(fr, args[1])
             pth.events.append(('repr-read', k, src == 'READER', c.get('self_ty'), where))
             fr.store_through(args[0], ('repr', k))
@@ -305,31 +306,6 @@ class Model:
         if name == 'from_residual':
             fr.storev(dest, ('residual', fr.operand(args[0])))
             return True
-        if (res.startswith('std::result::Result::<T, E>::map_err') or d.startswith('std::result::Result::<T, E>::map_err')) and len(args) == 2:
-            v = fr.operand(args[0])
-            r = as_result(v)
-            cl = I._closure_value(fr, args[1])
-            if r is not None and r[0] == 'Ok':
-                fr.storev(dest, v)
-                return True
-            if r is not None and r[0] == 'Err' and cl is not None:
-                e2 = I._call_closure_rw(fr, cl[0], cl[1], [r[1]], where)
-                fr.storev(dest, Opt('some', e2, v.label if isinstance(v, Opt) else None))
-                return True
-            if isinstance(v, Opt) and v.tag is None and cl is not None:
-                e2 = I._call_closure_rw(fr, cl[0], cl[1], [('decode-error',)], where)
-                return I.fork_values(fr, t, pth, [Opt('none', v.payload, v.label), Opt('some', e2, v.label)], v.label)
-            return False
-        if (res.startswith('std::result::Result::<T, E>::map') or d.startswith('std::result::Result::<T, E>::map')) and name is None and d.endswith('::map') and len(args) == 2:
-            v = fr.operand(args[0])
-            cl = I._closure_value(fr, args[1])
-            if isinstance(v, Opt) and cl is not None and v.tag != 'some':
-                okv = I._call_closure_rw(fr, cl[0], cl[1], [v.payload], where)
-                if v.tag == 'none':
-                    fr.storev(dest, Opt('none', okv, v.label))
-                    return True
-                return I.fork_values(fr, t, pth, [Opt('none', okv, v.label), Opt('some', ('decode-error',), v.label)], v.label)
-            return False
         if res.startswith('std::io::Error::new') or d.startswith('std::io::Error::new'):
             fr.storev(dest, ('io_error', fr.operand(args[0]), fr.operand(args[1])))
             return True
@@ -361,3 +337,20 @@ def as_result(v):
     if isinstance(v, tuple) and v and v[0] == 'residual':
         return ('Err', v)
     return None
+
+
+def expand_undecided(results):
+    """A path that returns an undecided two-sided value (e.g. `decoder(..).map_err(..)` returned as it is) stands for
+    two outcomes: split it into two paths, each with the deciding label appended."""
+    out = []
+    for pth, ret, outs in results:
+        o = stdmodel.two_variant(ret, True)
+        if o is not None and o.tag is None:
+            for variant in (0, 1):
+                np_ = exp.Path()
+                np_.labels = list(pth.labels) + [(o.label, variant)]
+                np_.events = list(pth.events)
+                out.append((np_, Opt('some' if variant else 'none', stdmodel.side(o, variant), o.label), outs))
+        else:
+            out.append((pth, ret, outs))
+    return out
